@@ -310,8 +310,11 @@ def rule_literal_wrap(db: ProgramDB) -> List[Instance]:
 
 
 def rule_none_tests(db: ProgramDB) -> List[Instance]:
-    """Values read out of the index with .get() are stored outputs or sub-tries; outputs can be falsy (the engine stores
-    False for every true row), so their presence must be tested with `is None` / `is not None`, never by truthiness."""
+    """What is stored under a key of the index is a sub-trie or, at the last level, an output - and an output can be any
+    value: the engine stores False for every true row, and nothing forbids None.  Whether something is stored under a key is
+    therefore decided by membership (`k in node`); a value read with .get() may be tested by identity with None only at a
+    level that cannot hold an output (strictly before the last key), and never by truthiness."""
+    from ..boolexpr import guards_of
     out = []
     ic = db.cls("IndexedCache")
     n = 0
@@ -319,6 +322,7 @@ def rule_none_tests(db: ProgramDB) -> List[Instance]:
         got: Set[str] = set()
         # the index nodes: self.cache, a parameter named `cache` (the recursion), and what is read out of one of them
         tries: Set[str] = {"self.cache"} | ({"cache"} if "cache" in m.params else set())
+        get_calls: Dict[str, ast.Call] = {}
         changed = True
         while changed:
             changed = False
@@ -329,32 +333,50 @@ def rule_none_tests(db: ProgramDB) -> List[Instance]:
                     if unparse(v) in tries and t not in tries:
                         tries.add(t)
                         changed = True
+                    if isinstance(v, ast.Subscript) and unparse(v.value) in tries and t not in tries:
+                        tries.add(t)
+                        changed = True
                     if isinstance(v, ast.Call) and call_attr(v) == "get" and unparse(v.func.value) in tries:
                         if t not in got:
                             got.add(t)
+                            get_calls[t] = a
                             changed = True
                         if t not in tries:
                             tries.add(t)       # a sub-trie read from a trie is a trie
                             changed = True
-        if not got:
-            continue
         for t in own_nodes(m.node):
             if isinstance(t, (ast.If, ast.While, ast.IfExp)):
                 for leaf in _bool_leaves(t.test):
-                    if isinstance(leaf, ast.Name) and leaf.id in got:
+                    if (isinstance(leaf, ast.Name) and leaf.id in got) or \
+                            (isinstance(leaf, ast.Call) and call_attr(leaf) == "get" and unparse(leaf.func.value) in tries) or \
+                            (isinstance(leaf, ast.Subscript) and unparse(leaf.value) in tries):
                         n += 1
-                        out.append(inst("NONE-TEST", VIOLATION, m, f"{m.short}[if {leaf.id}]",
+                        out.append(inst("NONE-TEST", VIOLATION, m, f"{m.short}[if {unparse(leaf)[:40]}]",
                                         f"`{unparse(t.test)}` tests a value read from the index by truthiness: a stored output "
                                         f"that is falsy (False, 0, None-like) is taken for 'nothing stored' and the entry is "
                                         f"missed or replaced by the wildcard walk", line=t.lineno))
                     elif isinstance(leaf, ast.Compare) and isinstance(leaf.left, ast.Name) and leaf.left.id in got:
                         n += 1
-                        ok = all(isinstance(o, (ast.Is, ast.IsNot, ast.In, ast.NotIn)) for o in leaf.ops)
-                        out.append(inst("NONE-TEST", HOLDS if ok else VIOLATION, m, f"{m.short}[{unparse(leaf)}]",
-                                        "presence tested by identity with None" if ok else
-                                        f"`{unparse(leaf)}` compares a stored value with ==", line=t.lineno))
+                        if not all(isinstance(o, (ast.Is, ast.IsNot)) for o in leaf.ops):
+                            out.append(inst("NONE-TEST", VIOLATION, m, f"{m.short}[{unparse(leaf)}]",
+                                            f"`{unparse(leaf)}` compares a stored value with ==", line=t.lineno))
+                            continue
+                        # identity with None: only where the level cannot hold an output
+                        src = get_calls[leaf.left.id]
+                        g = guards_of(src, m.node.body) or []
+                        before_last = any(pol and isinstance(tt, ast.Compare) and len(tt.ops) == 1 and isinstance(tt.ops[0], ast.Lt)
+                                          and "last" in unparse(tt.comparators[0]) for tt, pol in g)
+                        out.append(inst("NONE-TEST", HOLDS if before_last else VIOLATION, m, f"{m.short}[{unparse(leaf)}]",
+                                        "presence tested by identity with None at a level strictly before the last key (sub-tries only)" if before_last else
+                                        f"`{unparse(leaf)}` takes a value read with .get() for absent when it is None, at a level that can hold "
+                                        f"an output: an entry whose output is None is reported as covered by check() and not returned by retrieve()",
+                                        line=t.lineno))
+                    elif isinstance(leaf, ast.Compare) and len(leaf.ops) == 1 and isinstance(leaf.ops[0], (ast.In, ast.NotIn)) \
+                            and unparse(leaf.comparators[0]) in tries:
+                        n += 1
+                        out.append(inst("NONE-TEST", HOLDS, m, f"{m.short}[{unparse(leaf)}]", "presence decided by membership", line=t.lineno))
     if n == 0:
-        raise AnalysisError("IndexedCache: no presence test on a value read with .get() found")
+        raise AnalysisError("IndexedCache: no presence test on the contents of the index found")
     return out
 
 
